@@ -337,6 +337,7 @@ package xmpp
 //@ event Marshaled(v Iface)
 //@ func (stanza.Packet).Name(p) (name)
 //@ func (xmpp.Transport).ReceivedStreamClose(t)
+//@ func (xmpp.Transport).LogTraffic(t, w)
 //
 //@ func (*xmpp.Component).Connect(c) (err)
 //@   requires c != nil
@@ -631,6 +632,8 @@ package xmpp
 // Wiring of the TCP transport: what is written goes to - and what is decoded comes from - the current connection
 // (directly, or through the stream logger whose socket it is). After STARTTLS "the current connection" is the TLS one.
 //@ pred rwOn(rw, conn) := rw == conn || (typeof(rw) == *streamLogger && rw.(*streamLogger) != nil && rw.(*streamLogger).socket == conn)
+// The decoder model of C02 (well-nested tokens, an error on mismatched tags) is that of a strict decoder.
+//@ pred strictDecoder(d) := d != nil && d.Strict && d.Entity == nil && len(d.AutoClose) == 0
 //@ pred wired(t) := t.conn != nil && rwOn(t.readWriter, t.conn) && t.decoder != nil && srcOf(srcOf(t.decoder)) == t.readWriter
 //@ func (*xmpp.XMPPTransport).StartTLS(t) (err)
 //@   requires t != nil && !t.isSecure
@@ -640,6 +643,7 @@ package xmpp
 //@   ensures [C04.tls.conn]   t.isSecure ==> typeof(t.conn) == *tls.Conn && t.conn.(*tls.Conn) == last(TLSHandshake, 0)
 //@   ensures [C05.transport.nodeadline] count(ReadDeadlineSet) == old(count(ReadDeadlineSet)) || last(ReadDeadlineSet, 1)
 //@   ensures [C04.tls.wired]  t.isSecure ==> wired(t)
+//@   ensures [C02.decoder.strict] t.isSecure ==> strictDecoder(t.decoder)
 //@   ensures t.Config == old(t.Config)
 //@   assigns t.TLSConfig, t.isSecure, t.conn, t.readWriter, t.decoder
 //@   emits TLSHandshake, HostVerified
@@ -676,6 +680,7 @@ package xmpp
 //@   emit Connected(iface(t), id) when err == nil
 //@   ensures [C04.connect.plain] err == nil ==> !t.isSecure && t.conn != nil && fresh(t.conn) && count(Dialed) == old(count(Dialed)) + 1 && last(Dialed, 0) == t.Config.Address
 //@   ensures [C04.connect.wired] err == nil ==> wired(t)
+//@   ensures [C02.decoder.strict] err == nil ==> strictDecoder(t.decoder)
 //@   ensures [C16.connect.id] err == nil ==> headerId(id)
 //@   ensures [C05.transport.nodeadline] count(ReadDeadlineSet) == old(count(ReadDeadlineSet)) || last(ReadDeadlineSet, 1)
 //@   ensures t.Config == old(t.Config)
@@ -774,6 +779,18 @@ package xmpp
 //@   assigns c.Session, c.Session.err, c.Session.Features, c.Session.TlsEnabled, c.Session.StreamId, c.Session.SMState, c.Session.BindJid, c.Session.lastPacketId, c.config.StreamManagementEnable, c.CurrentState.state
 //@   emits Write, Decoded, DecodedElement, StartTLSCalled, SecureAsked, PacketRead, StanzaRead, AckReqRead, StreamErrRead, TokenRead, Marshaled, StreamStarted, TlsDone, AuthConfirmed, Restarted, ResumedOK, Bound, SessionOpened, SMEnabledOK, Connected, EventHandler, Spawn, Spawn_connect$1
 //
+// NewClient: the domain the server's certificate will be checked against (TransportConfiguration.Domain) is the one
+// the application configured or else the domain of the JID - never the host the connection happens to go to.
+//@ func xmpp.NewClient(config, r, errorHandler) (c, err)
+//@   requires config != nil
+//@   ensures [C04.newclient.domain]    err == nil ==> c != nil && c.config == config && config.parsedJid != nil && config.Domain == ite(old(config.Domain) != "", old(config.Domain), config.parsedJid.Domain)
+//@   ensures [C04.newclient.transport] (err == nil && typeof(c.transport) == *XMPPTransport) ==> c.transport.(*XMPPTransport) != nil && c.transport.(*XMPPTransport).Config.Domain == config.Domain && c.transport.(*XMPPTransport).Config.TLSConfig == config.TLSConfig
+//@   ensures [C04.newclient.insecure]  err == nil ==> config.Insecure == old(config.Insecure)
+//@   assigns *config
+//@   loop 1:
+//@     invariant config != nil && config.parsedJid != nil && config.Domain == old(config.Domain) && config.Insecure == old(config.Insecure) && config.TLSConfig == old(config.TLSConfig)
+//@     invariant 0 <= $i && $i <= len($range) && bestSrv != nil && forall(k, 0, len($range), $range[k] != nil)
+//
 // The goroutine connect() starts after a failed negotiation only waits for the server's closing tag. There is no
 // established connection to lose at that point: it must not signal one (under a StreamManager every Disconnected or
 // StreamError event starts a reconnect loop - a second one, next to the loop whose attempt has just failed).
@@ -822,12 +839,12 @@ package xmpp
 //@   requires t.decoder != nil && t.wsConn != nil
 //@   ensures [C16.ws.startstream.id] err == nil ==> headerId(id)
 //@   emits Write, WsWrite, TokenRead, CtxCancelled
-//@   assigns *
 //
 //@ func (*xmpp.WebsocketTransport).Connect(t) (id, err)
 //@   requires t != nil
 //@   emit Connected(iface(t), id) when err == nil
 //@   ensures [C16.ws.connect.id] err == nil ==> headerId(id)
+//@   ensures [C02.decoder.strict] err == nil ==> strictDecoder(t.decoder)
 //@   emits Write, WsWrite, TokenRead, CtxCancelled, Spawn, Spawn_startReader$1
 //@   assigns *
 //
